@@ -29,7 +29,7 @@ EXPLANATION = (
     "(PANIC) no undischarged panic site reachable from any RPC conversion (try_from_rpc / TryFrom<rpc::*> / from_rpc in "
     "segment::rpc, path, path::metadata) or from validate/decode_*."
 )
-EXPLANATION_ADD = ' Additions: subtraction underflow in the RPC conversions is an armed panic site in the dev configuration.'
+EXPLANATION_ADD = ' Additions: subtraction underflow in the RPC conversions is an armed panic site in the dev configuration; (CHAIN-all) flat_map in associated_data consumes the whole take_while prefix (no narrowing adaptor in between).'
 EXPLANATION = EXPLANATION + EXPLANATION_ADD
 RESIDUAL = ["'iff authentic' as a statement about ECDSA/SHA-2 values", "value round trip of RPC conversion (lossless)",
             "that single-bit changes of body/header/earlier entries change the digest (hash function property)"]
